@@ -12,8 +12,10 @@ a normal-form comparison of comparison expressions; nothing is executed.
 from __future__ import annotations
 
 import ast
+import re
 from typing import Dict, List, Optional, Set, Tuple
 
+from ..cfg import CFG
 from ..model import AnalysisError, FuncInfo, Repo, attr_path, dotted, expand_path, local_aliases, unparse, walk_no_nested
 from ..report import Check
 from .lookups import builder_bias, util_function
@@ -86,11 +88,133 @@ class Transformed(Exception):
     """the code computes something recognisably different from what the rule requires"""
 
 
+def quick_rejects(chk: Check, rule: str, f: FuncInfo, key: str, at: bool, bias: int) -> None:
+    """an exit in front of the overlap loop ("nothing can match") is sound only under a condition
+    that implies an empty answer: the tree is empty, the query ends at or before the smallest key
+    (STOP <= tree.begin()), or it starts behind every node — for 'at' START >= tree.end(), for
+    'on' START >= tree.end() - bias (stored intervals are one longer than their nodes, so a
+    zero-sized node sits at tree.end() - bias and is found by 'at' but not by 'on').  Decided by
+    linear arithmetic over the guards that lead to the exit."""
+    al = local_aliases(f.node)
+    ps = f.param_names()
+    tree = ps[0]
+    loops = [n for n in walk_no_nested(f.node) if isinstance(n, ast.For) and isinstance(n.iter, ast.Call)
+             and isinstance(n.iter.func, ast.Attribute) and n.iter.func.attr == "overlap"]
+    if len(loops) != 1:
+        return
+    lp = loops[0]
+    inside = {id(x) for x in ast.walk(lp)}
+    rets = [r for r in walk_no_nested(f.node) if isinstance(r, ast.Return) and id(r) not in inside]
+    if not rets:
+        return
+    rng_names = {k for k, v in al.items() if isinstance(v, ast.Call) and attr_path(v.func) == ("get_desired_range",)}
+
+    def sym(e: ast.AST, depth: int = 0) -> Optional[Lin]:
+        p_ = attr_path(e)
+        if p_ and len(p_) == 2 and p_[0] in rng_names and p_[1] in ("start", "stop"):
+            return {p_[1].upper(): 1}, 0
+        if p_ == ("adjustment",):
+            return {"ADJ": 1}, 0
+        if isinstance(e, ast.Call) and isinstance(e.func, ast.Attribute) and attr_path(e.func.value) == (tree,) \
+                and not e.args and e.func.attr in ("begin", "end"):
+            return {"TB" if e.func.attr == "begin" else "TE": 1}, 0
+        if isinstance(e, ast.Name) and e.id in al and depth < 4:
+            try:
+                return _lin(al[e.id], lambda x: sym(x, depth + 1))
+            except Outside:
+                return None
+        return None
+    adjusted = "adjustment" in ps
+
+    def atom(t: ast.AST, val: bool) -> Tuple[Optional[bool], str]:
+        """(sound reject?, description): True sound, False a bound test that does not imply an
+        empty answer, None not understood"""
+        while isinstance(t, ast.UnaryOp) and isinstance(t.op, ast.Not):
+            t, val = t.operand, not val
+        if attr_path(t) == (tree,):
+            return (True, "empty tree") if not val else (None, "tree not empty")
+        if isinstance(t, ast.Compare) and len(t.ops) == 1 and isinstance(t.left, ast.Call) and \
+                attr_path(t.left.func) == ("len",) and t.left.args and attr_path(t.left.args[0]) == (tree,) and \
+                isinstance(t.comparators[0], ast.Constant) and t.comparators[0].value == 0 and \
+                isinstance(t.ops[0], (ast.Eq, ast.NotEq)):
+            return (True, "empty tree") if (isinstance(t.ops[0], ast.Eq) == val) else (None, "tree not empty")
+        if not (isinstance(t, ast.Compare) and len(t.ops) == 1):
+            return None, unparse(t)[:50]
+        op = type(t.ops[0]).__name__
+        if op not in NEG:
+            return None, unparse(t)[:50]
+        if not val:
+            op = NEG[op]
+        try:
+            l_, r_ = _lin(t.left, sym), _lin(t.comparators[0], sym)
+        except Outside:
+            return None, unparse(t)[:50]
+        d = dict(l_[0])
+        for k_, v_ in r_[0].items():
+            d[k_] = d.get(k_, 0) - v_
+        d = {k_: v_ for k_, v_ in d.items() if v_}
+        k0 = l_[1] - r_[1]
+        flip = {"Lt": "Gt", "LtE": "GtE", "Gt": "Lt", "GtE": "LtE"}
+        q = "START" if "START" in d else "STOP" if "STOP" in d else None
+        if q is None:
+            return None, unparse(t)[:50]
+        if d[q] == -1:
+            d, k0, op = {k_: -v_ for k_, v_ in d.items()}, -k0, flip[op]
+        want_adj = {"ADJ": 1} if adjusted else {}
+        if q == "START" and d == dict({"START": 1, "TE": -1}, **want_adj) and op in ("GtE", "Gt"):
+            c = -k0 if op == "GtE" else -k0 + 1          # START >= TE + c
+            need = 0 if at else -bias
+            return c >= need, "START >= tree.end() %+d (an empty answer needs %+d or more)" % (c, need)
+        if q == "STOP" and d == dict({"STOP": 1, "TB": -1}, **want_adj) and op in ("LtE", "Lt"):
+            c = -k0 if op == "LtE" else -k0 - 1          # STOP <= TB + c
+            return c <= 0, "STOP <= tree.begin() %+d (an empty answer needs +0 or less)" % c
+        return None, unparse(t)[:50]
+    cfg = CFG(f.node)
+    for r in rets:
+        try:
+            rn = cfg.node_of(r)
+        except AnalysisError:
+            continue
+        # every way into the exit through the guards directly in front of it
+        paths: List[List[Tuple[ast.AST, bool]]] = []
+
+        def back(n: int, acc: List[Tuple[ast.AST, bool]], seen: Set[int]) -> None:
+            preds = [p_ for p_ in cfg.g.predecessors(n) if p_ not in seen]
+            went = False
+            for p_ in preds:
+                i_ = cfg.info[p_]
+                if i_.kind == "branch" and i_.ast is not None:
+                    went = True
+                    back(i_.test if i_.test is not None else p_, acc + [(i_.ast, bool(i_.value))], seen | {p_})
+                elif i_.kind in ("test", "join"):
+                    went = True
+                    back(p_, acc, seen | {p_})
+            if not went or len(preds) > sum(1 for p_ in preds if cfg.info[p_].kind in ("branch", "test", "join")):
+                paths.append(acc)
+        back(rn, [], {rn})
+        worst: Optional[bool] = True
+        why = ""
+        for pth in paths:
+            vs = [atom(t_, v_) for t_, v_ in pth]
+            if any(v_[0] is True for v_ in vs):
+                continue
+            bad = [v_ for v_ in vs if v_[0] is False]
+            if bad:
+                worst, why = False, bad[0][1]
+                break
+            worst, why = None, "; ".join(v_[1] for v_ in vs) or "unconditional exit"
+        chk.ob(rule, key + ":exit-before-search-implies-empty-answer", worst is True, f.loc(r),
+               "%s leaves before searching the tree under a condition that does not imply an empty answer: %s"
+               % (key, why), 3, undecided=worst is None)
+
+
 def on_impl(chk: Check, rule: str, fname: str = "_nodes_on_interval_tree_impl") -> None:
     repo = chk.repo
     f = util_function(repo, fname)
     chk.saw(f)
     key = "util.%s" % fname
+    _b = builder_bias(util_function(repo, "_offset_interval"))
+    quick_rejects(chk, rule, f, key, False, _b if _b is not None else 1)
     biases = {builder_bias(util_function(repo, b)) for b in ("_address_interval", "_offset_interval")}
     if len(biases) != 1 or None in biases:
         chk.ob(rule, key + ":bias", False, f.loc(), "interval builders disagree on the closed-interval bias", 1)
@@ -294,6 +418,8 @@ def at_impl(chk: Check, rule: str, fname: str = "_nodes_at_interval_tree_impl") 
     f = util_function(repo, fname)
     chk.saw(f)
     key = "util.%s" % fname
+    _b = builder_bias(util_function(repo, "_offset_interval"))
+    quick_rejects(chk, rule, f, key, True, _b if _b is not None else 1)
     al = local_aliases(f.node)
     ps = f.param_names()
     tree = ps[0]
@@ -496,12 +622,50 @@ def scan_at(chk: Check, rule: str) -> None:
            "range: %s" % why, 3)
 
 
+_LOOKUP_NAME = re.compile(r"(_on|_at|_on_offset|_at_offset)$|^_nodes_(on|at)_interval_tree|^get_desired_range$")
+
+
+def _no_len_of_query(chk: Check, rule: str) -> None:
+    """a query may be any range with a positive step, e.g. range(0, 2**64): ``len()`` of a range
+    with more than sys.maxsize members raises OverflowError, so no lookup may take the length
+    of the query (emptiness is ``not r`` / a comparison of its bounds)"""
+    n_funcs = 0
+    for f in chk.repo.all_functions():
+        if not _LOOKUP_NAME.search(f.name):
+            continue
+        n_funcs += 1
+        ranges = set()
+        a = f.node.args
+        for p_ in a.posonlyargs + a.args + a.kwonlyargs:
+            if p_.annotation is not None and "range" in unparse(p_.annotation):
+                ranges.add(p_.arg)
+        for n in ast.walk(f.node):
+            if isinstance(n, ast.Assign) and isinstance(n.value, ast.Call) and \
+                    (dotted(n.value.func) or ("",))[-1] in ("get_desired_range", "range"):
+                for t in n.targets:
+                    if isinstance(t, ast.Name):
+                        ranges.add(t.id)
+        for n in ast.walk(f.node):
+            if isinstance(n, ast.Call) and isinstance(n.func, ast.Name) and n.func.id == "len" and len(n.args) == 1:
+                x = n.args[0]
+                is_range = (isinstance(x, ast.Name) and x.id in ranges) or (
+                    isinstance(x, ast.Call) and (dotted(x.func) or ("",))[-1] in ("get_desired_range", "range"))
+                if is_range:
+                    chk.ob(rule, "%s:len-of-query-range" % f.qualname, False, f.loc(n),
+                           "%s takes len() of the query range (%s): a legal query such as range(0, 2**64) "
+                           "has more than sys.maxsize members and len() raises OverflowError"
+                           % (f.qualname, unparse(n)), 2)
+    chk.ob(rule, "lookups:no-len-of-query-range:scanned", n_funcs >= 20, "python/gtirb/util.py:1",
+           "only %d lookup functions found to scan" % n_funcs, n_funcs)
+
+
 def range_helpers(chk: Check, rule: str) -> None:
     """get_desired_range(a) is range(a, a + 1) for an int and the range itself otherwise; the
     thin wrappers hand tree, query and adjustment on to the implementation with the getter of
     their key space"""
     repo = chk.repo
     from ..terms import OutsideFragment, function_term, show
+    _no_len_of_query(chk, rule)
     f = util_function(repo, "get_desired_range")
     chk.saw(f)
     p = f.param_names()[0]
